@@ -90,6 +90,6 @@ _WIP = 'check not built yet in this revision (work in progress, see DESIGN.md se
 NOT_APPLICABLE = {p: _WIP for p in ['C%02d' % i for i in range(1, 21)]}
 NOT_APPLICABLE.update({
  'C20': 'KeyframeAnimation is a PointCloud subclass encoded by the sequential point-cloud codec; only LinearSequencer ordering is encodable, which is too thin to decide the property (DESIGN.md 4)',
- 'C14': 'dedup runs on std::unordered_map (bucket policy out of line in libstdc++, no IR), cleanup/stripifier on constructed CornerTable/Mesh; nothing encodable carries the property (DESIGN.md 5)',
- 'C15': 'writers format through snprintf/ostream (libc/libstdc++ without IR) and readers parse that text; whole-file runs cannot be encoded (DESIGN.md 5)',
+ 'C14': 'attribute-value and point-id deduplication run on std::unordered_map and mesh clean-up on std::unordered_set (bucket / rehash policy is out of line in libstdc++: no IR to encode), and both builders end in those deduplications; the stripifier alone could be driven on a directly constructed corner table but is one of five mechanisms and would not carry the property (DESIGN.md 4)',
+ 'C15': 'writers format through snprintf/ostream (libc/libstdc++ without IR) and readers parse that text; whole-file runs cannot be encoded (DESIGN.md 4)',
 })
